@@ -38,6 +38,12 @@ CONSTRUCTS = [
     ("user return type", "fun g(): Int { \"s\" }\ng()"), ("closure return type", "let c = fun(): Int { \"s\" }\nc()"),
     ("method this", "\"a\".len(1)"), ("nested values pending", "[1, 2 + \"a\", 3]"), ("args pending", "max(1, 2 + \"a\")"),
     ("tuple pending", "(1, nosuchvar)"),
+    # the failing step runs right after a callee frame returned
+    ("after call rhs", "fun uf(): String { \"s\" }\n1 + uf()"), ("after call arg", "fun uf(): String { \"w\" }\nthrow(uf())"),
+    ("after call two args", "fun uf(): String { \"w\" }\nmax(uf(), 1)"), ("after call last arg", "fun uf(): String { \"w\" }\nmax(1, uf())"),
+    ("after closure", "let cf = fun() { \"s\" }\n2 * cf()"), ("after user method", "method um(this: Int): String { \"s\" }\n3 - 1.um()"),
+    ("after call in list", "fun uf(): String { \"w\" }\n[1, 2 + uf()]"), ("after call cond", "fun uf(): Int { 1 }\nif uf() { 1 }"),
+    ("after call iteree", "fun uf(): Int { 1 }\nfor q in uf() { }"), ("after call update", "fun uf(): String { \"w\" }\nlet acc = 1\nacc += uf()"),
 ]
 CONTEXTS = [
     ("toplevel", "{defs}{e}"),
